@@ -71,6 +71,15 @@ func (g *Gen) GenFunc(key string) (res *FnResult) {
 		c.assume(st, c.wellFormed(n, p.Type(), st.next))
 		args = append(args, fr0.mkVal(n, p.Type()))
 	}
+	// A function literal under contract: each captured variable is a cell that exists before the call
+	// (go/ssa passes a pointer to it); the cell is allocated, its content is unconstrained beyond well-formedness.
+	c.freeVals = map[*ssa.FreeVar]Val{}
+	for _, fv := range fn.FreeVars {
+		n := c.declare("fv_"+sanitize(fv.Name()), g.TE.SortOf(fv.Type()))
+		c.assume(st, c.wellFormed(n, fv.Type(), st.next))
+		c.assume(st, fmt.Sprintf("(not (= %s nil))", n))
+		c.freeVals[fv] = fr0.mkVal(n, fv.Type())
+	}
 	c.assumeConstMaps(st)
 	// requires
 	path := key
@@ -79,6 +88,8 @@ func (g *Gen) GenFunc(key string) (res *FnResult) {
 		for i, p := range fn.Params {
 			env.Vars[p.Name()] = SV{Term: args[i].T, Typ: p.Type()}
 		}
+		fr0.c = c
+		fr0.bindFreeVars(env, st)
 		for _, rq := range con.Requires {
 			c.assume(st, env.Eval(rq.Expr).Term)
 		}
